@@ -445,7 +445,7 @@ def run_gauge(case):
             tag = f"T{k % case['n']}"
             if tag not in tn.tag_map:
                 raise Reject("tag gone")
-            if not any(len(tn.ind_map[ix]) >= 2 for ix in tn[tag].inds):
+            if not any(len(tn.ind_map[ix]) >= 2 for t_ in tn.select_tensors(tag) for ix in t_.inds):
                 # (an earlier squeeze can leave the tagged tensor without any bond: its local region is then a bond-less
                 #  network, the documented out-of-domain crash of the gauging loops, see the guard above)
                 raise Reject("tagged tensor has no bonds left: bond-less local region")
